@@ -1,10 +1,11 @@
 //go:build verif
 
 //verif:dir p2p/host/peerstore/pstoreds
+//verif:also C13 VerifC09hP2PSuffix
 //verif:noreplace github.com/libp2p/go-libp2p/core/peer.SplitAddr
 //verif:noreplace github.com/multiformats/go-multiaddr.NewMultiaddrBytes
 //verif:shard VerifC09hP2PSuffix 12
-//verif:obligation C09.h addresses with a /p2p suffix, both books side by side through the real peer.SplitAddr and the real multiaddr parser: on every history of 2 operations from {AddAddrs, SetAddrs(ttl > 0), SetAddrs(ttl <= 0)} over batches of 1..2 of the forms {A, A/p2p/P, A/p2p/Q, B/p2p/P} addressed to peer P: a suffix naming P is stripped (the bare address is what is stored, returned and removed; A and A/p2p/P are one address), a form naming another peer is ignored by adds and removes nothing, no returned address carries a /p2p component, nothing ever lands under Q, and both books answer exactly the set the statement gives
+//verif:obligation C09.h addresses with a /p2p suffix, both books side by side through the real peer.SplitAddr and the real multiaddr parser: on every history of 2 operations from {AddAddrs, SetAddrs(ttl > 0), SetAddrs(ttl <= 0)} over batches of 1..2 of the forms {A, A/p2p/P, A/p2p/Q, B/p2p/P} addressed to peer P: a suffix naming P is stripped (the bare address is what is stored, returned and removed; A and A/p2p/P are one address), a form naming another peer is ignored by adds (it neither adds the address nor refreshes the lifetime of one already known) and removes nothing, no returned address carries a /p2p component, nothing ever lands under Q, and both books answer exactly the set the statement gives
 //verif:bound 2 peers (real peer IDs), 2 transport addresses, 4 address forms, batches of 1..2, history 2
 //verif:stub flush hooked to "mark clean", harness cache and clock for the datastore book; the memory book runs unmodified behind its public API with the same clock
 //verif:outside TTL classes and expiry (C09.b/c), signed records whose addresses carry a suffix
@@ -57,7 +58,14 @@ func VerifC09hP2PSuffix() {
 	defer mab.Close()
 	vC09now = time.Unix(1000, 0)
 	var want [2]bool
+	var exp [2]int64 // reference: until when each bare address lives (seconds)
 	for step := 0; step < 2; step++ {
+		ttl := time.Hour
+		if step == 1 {
+			ttl = 3 * time.Hour // the second operation would extend lifetimes: a form naming another peer must not
+			vC09now = time.Unix(1600, 0)
+		}
+		nowS := vC09now.Unix()
 		// the first draw of a path is what the parallel shards split on: operation and first form together
 		k := vCase(12)
 		op, first := k%3, k/3
@@ -80,19 +88,23 @@ func VerifC09hP2PSuffix() {
 		}
 		switch op {
 		case 0:
-			dab.AddAddrs(P, batch, time.Hour)
-			mab.AddAddrs(P, batch, time.Hour)
+			dab.AddAddrs(P, batch, ttl)
+			mab.AddAddrs(P, batch, ttl)
 			for _, b := range idx {
 				if b >= 0 {
 					want[b] = true
+					if e := nowS + int64(ttl/time.Second); e > exp[b] {
+						exp[b] = e
+					}
 				}
 			}
 		case 1:
-			dab.SetAddrs(P, batch, time.Hour)
-			mab.SetAddrs(P, batch, time.Hour)
+			dab.SetAddrs(P, batch, ttl)
+			mab.SetAddrs(P, batch, ttl)
 			for _, b := range idx {
 				if b >= 0 {
 					want[b] = true
+					exp[b] = nowS + int64(ttl/time.Second)
 				}
 			}
 		case 2:
@@ -132,4 +144,18 @@ func VerifC09hP2PSuffix() {
 		}
 	}
 	vAssert(len(dab.Addrs(Q)) == 0 && len(mab.Addrs(Q)) == 0, "nothing lands under the peer a foreign suffix names")
+	// two hours on: what the first operation added lives on only if the second operation validly named it again
+	later := int64(1600 + 2*3600)
+	vC09now = time.Unix(later, 0)
+	for which, got := range [][]ma.Multiaddr{dab.Addrs(P), mab.Addrs(P)} {
+		for b := range bare {
+			has := vC09gHas(got, bare[b])
+			alive := want[b] && exp[b] > later
+			if which == 0 {
+				vAssert(has == alive, "datastore book: a form naming another peer does not refresh the lifetime of an address already known")
+			} else {
+				vAssert(has == alive, "memory book: a form naming another peer does not refresh the lifetime of an address already known")
+			}
+		}
+	}
 }
